@@ -223,7 +223,7 @@ def _inlinable(fi):
     if decos - {"staticmethod", "classmethod"}:
         return None
     body = [s for s in node.body if not (isinstance(s, ast.Expr) and isinstance(s.value, ast.Constant))]
-    if not body or len(body) > 12:
+    if not body or len(body) > _OPTS["max_body"]:
         return None
     for n in ast.walk(node):
         if isinstance(n, (ast.Yield, ast.YieldFrom, ast.Await, ast.Global, ast.Nonlocal, ast.Lambda, ast.ClassDef, ast.Try, ast.With,
@@ -244,10 +244,10 @@ def _inlinable(fi):
         return ('void', body, None)
     if len(rets) == 1 and rets[0] is body[-1] and isinstance(rets[0].value, ast.Name) and rets[0].value.id in params and len(body) > 1:
         return ('identity', body[:-1], rets[0].value.id)
-    if len(rets) == 1 and rets[0] is body[-1] and rets[0].value is not None and len(body) > 1 and \
-            not any(isinstance(n, ast.Call) and not (isinstance(n.func, ast.Name) and n.func.id in ("max", "min", "len", "id", "int", "tuple", "range", "bool"))
-                    for n in ast.walk(rets[0].value)):
-        return ('value', body[:-1], rets[0].value)      # statements, then one effect-free result expression
+    if len(rets) == 1 and rets[0] is body[-1] and rets[0].value is not None and (len(body) > 1 or _OPTS["allow_anchors"]):
+        # statements, then one result expression: it is evaluated into a temporary right before the calling statement, i.e.
+        # at the point where the call was evaluated (the call site is required to be evaluated first in its statement)
+        return ('value', body[:-1], rets[0].value)
     return None
 
 
@@ -346,6 +346,9 @@ def _expand(call, target, kind, body, retparam, counter, static_cls=None):
     return out, value
 
 
+_OPTS = {"allow_anchors": False, "exclude": (), "max_body": 12}
+
+
 def _resolve_helper(index, fi, call):
     """The FuncInfo a call refers to, when it is a private helper of the caller's own class or module."""
     f = call.func
@@ -365,7 +368,9 @@ def _resolve_helper(index, fi, call):
     name = target.node.name
     if not name.startswith("_") or name.startswith("__"):
         return None
-    if f"{target.module.rel}::{target.qual}" in _anchors():
+    if name in _OPTS["exclude"]:
+        return None
+    if f"{target.module.rel}::{target.qual}" in _anchors() and not _OPTS["allow_anchors"]:
         return None
     if target.cls is not None and isinstance(f, ast.Attribute) and f.value.id == "self" and "classmethod" in target.decorators and \
             any(isinstance(n, ast.Name) and n.id == target.node.args.args[0].arg for s in target.node.body for n in ast.walk(s)):
@@ -851,3 +856,32 @@ def desugar_extends(index):
                         done.setdefault(f.site, []).append(ast.unparse(v.func.value))
             walk_block(f.node.body)
     return done
+
+
+
+def flatten_function(index, fi, exclude=()):
+    """A copy of function `fi` in which every call of a private helper of its own class / module -- including the helpers the
+    rules otherwise anchor on -- is replaced by the helper's statements (same conditions as inline_procedures).  The rules that
+    state a property on what an API call does as a whole (which range is inserted, which tests precede the insertion) read this
+    flattened body, so that moving statements between the API function and its helpers does not change what they see.
+    Returns a FuncInfo for the copy (same site), or `fi` itself when nothing was opened."""
+    import copy
+    from .index import FuncInfo
+    node = copy.deepcopy(fi.node)
+    clone = FuncInfo(node, fi.cls, fi.module)
+    saved = dict(_OPTS)
+    _OPTS.update(allow_anchors=True, exclude=tuple(exclude), max_body=40)
+    try:
+        done = {}
+        counter = [1000]
+        for _ in range(4):
+            if not _inline_in(index, clone, node.body, counter, done):
+                break
+    finally:
+        _OPTS.clear()
+        _OPTS.update(saved)
+    if not done:
+        return fi
+    ast.fix_missing_locations(node)
+    clone.flattened = sorted({h for hs in done.values() for h in hs})
+    return clone
